@@ -1082,6 +1082,20 @@ impl Check for StopCheck {
         run.set("clock_auto_ns", *w.pick(&[0, 0, 1, 1000000]));
         // K9 failing hook
         run.set("hook_fail_at", *w.pick(&[-1, -1, 0, 1, 2, 4]));
+        // a hook that inserts a further term (an instance of a left side of one of the rules) at a
+        // seeded call: the hooks get mutable access to the e-graph, so this is within their rights
+        run.set("hook_add_at", -1);
+        if w.chance(1, 3) {
+            let rules: Vec<i64> = run.ops.iter().find(|o| o.name == "rules").map(|o| o.i.clone()).unwrap_or_default();
+            if !rules.is_empty() {
+                let pool = rule_pool(run.get("p") as u32);
+                let ri = rules[w.below(rules.len())].rem_euclid(pool.len() as i64) as usize;
+                let mut binder = 800;
+                let t = instance_of_left(&pool[ri], &mut w, &[0, 1], &mut binder);
+                run.ops.push(Op::new("hookterm").t(t));
+                run.set("hook_add_at", *w.pick(&[0, 1, 1, 2, 3]));
+            }
+        }
         run.set("modify", 0);
         run
     }
@@ -1141,6 +1155,8 @@ impl Check for StopCheck {
         let node_limit = run.get("node_limit").max(0) as usize;
         let time_limit_ms = run.get("time_limit_ms").max(0) as u64;
         let hook_fail_at = run.get("hook_fail_at");
+        let hook_add_at = run.get("hook_add_at");
+        let hook_re: Option<RecExpr<LA>> = run.ops.iter().find(|o| o.name == "hookterm").map(|o| to_re::<LA>(&o.t[0], &mut s.nm));
         let driver = run.get("driver").rem_euclid(4);
         let fp0 = fingerprint(&mut s);
         let t_start = seam::clock_now();
@@ -1185,11 +1201,17 @@ impl Check for StopCheck {
                 let hc = hook_calls.clone();
                 let time_limit_s = (time_limit_ms / 1000) as usize;
                 let rep = catch_op(|| {
-                    run_eqsat(&mut eg, rules, iter_limit, time_limit_s, move |_eg| {
+                    let hook_re = hook_re.clone();
+                    run_eqsat(&mut eg, rules, iter_limit, time_limit_s, move |eg| {
                         let n = *hc.borrow();
                         *hc.borrow_mut() += 1;
                         if per_iter > 0 {
                             seam::clock_advance_nanos(per_iter);
+                        }
+                        if n == hook_add_at {
+                            if let Some(re) = &hook_re {
+                                eg.add_expr(re.clone());
+                            }
                         }
                         if n == hook_fail_at {
                             return Err(format!("hook-failed-{n}"));
@@ -1269,11 +1291,16 @@ impl Check for StopCheck {
                     .with_iter_limit(iter_limit)
                     .with_node_limit(node_limit)
                     .with_time_limit(std::time::Duration::from_millis(time_limit_ms))
-                    .with_hook(move |_r: &mut Runner<LA, SimAn, (), String>| {
+                    .with_hook(move |r: &mut Runner<LA, SimAn, (), String>| {
                         let n = *hc.borrow();
                         *hc.borrow_mut() += 1;
                         if per_iter > 0 {
                             seam::clock_advance_nanos(per_iter);
+                        }
+                        if n == hook_add_at {
+                            if let Some(re) = &hook_re {
+                                r.egraph.add_expr(re.clone());
+                            }
                         }
                         if n == hook_fail_at {
                             return Err(format!("hook-failed-{n}"));
